@@ -468,6 +468,20 @@ pub fn check(prop: &str, tier: &str) -> Option<Report> {
       let wr_t = Arc::new(wr_terminating);
       fams.push((Family { name: "recovery operators, k-th subscription differs".into(), pipelines: depth1(&bounded), worlds: wr.clone(), oracles: vec![Oracle::Functional, Oracle::Teardown] }, 1));
       fams.push((Family { name: "retry(0) / retry_when(always), eventually succeeding source".into(), pipelines: depth1(&unbounded), worlds: wr_t.clone(), oracles: vec![Oracle::Functional, Oracle::Teardown] }, 1));
+      // a long run of failing attempts before the source succeeds (a retry budget hidden in the operator - a
+      // depth guard, a counter - shows here: seed C04-k stops after 32; 70 covers the usual 64 as well)
+      {
+        let mut wl = vec![];
+        for last in [vec![Ev::n(3), Ev::C], vec![Ev::n(1), Ev::E(2)]] {
+          for fail in [vec![Ev::E(1)], vec![Ev::n(1), Ev::E(1)]] {
+            let mut scripts: Vec<Vec<Ev>> = (0..70).map(|_| fail.clone()).collect();
+            scripts.push(last.clone());
+            wl.push(World { srcs: vec![SrcKind::Cold { scripts, polite: true }], acts: vec![Act::Sub(0)] });
+          }
+        }
+        let long_ops = vec![Op::Retry(0), Op::RetryWhen(EPred::Always), Op::RetryWhen(EPred::PayloadLt(2)), Op::Retry(4)];
+        fams.push((Family { name: "70 failing attempts in a row, then the source succeeds (or fails differently)".into(), pipelines: depth1(&long_ops), worlds: Arc::new(wl), oracles: vec![Oracle::Functional, Oracle::Teardown] }, 1));
+      }
       // recovery operators over hot sources that go on after the error they raised: the
       // re-subscription is made from inside the source's error notification
       {
@@ -822,7 +836,10 @@ pub fn multi_families(th: bool, rude: bool, oracles: Vec<Oracle>) -> Vec<(Family
     1,
   ));
   // ---- nestings with one single-source operator below (on the primary input) or above
-  let red = reduced_ops();
+  let mut red = reduced_ops();
+  // (retry_when next to retry: the re-subscribing operators above a combining one have the failed attempt's
+  // sibling inputs to let go of before the next attempt is subscribed)
+  red.push(Op::RetryWhen(EPred::PayloadLt(7)));
   let mut below = vec![];
   let mut above = vec![];
   for m in &ops {
@@ -1101,6 +1118,12 @@ pub fn c07_slice(r: &mut Report, tier: &str) {
   for (mut f, d) in multi_families(false, false, vec![]) {
     f.name = format!("monitor slice: {}", f.name);
     fams.push((f, d));
+  }
+  // ref_count() whose source emits synchronously while it connects, re-subscribed from a callback of the
+  // subscriber that made it connect (the second subscribe runs inside the first one's on_subscribe hook)
+  {
+    let wn: Vec<World> = w.iter().filter(|x| x.acts.iter().any(|a| matches!(a, Act::Nest { .. })) && matches!(x.srcs[0], SrcKind::Cold { .. })).cloned().collect();
+    fams.push((Family { name: "monitor slice: ref_count() over a synchronous source, re-subscribed from a callback".into(), pipelines: connectable_pipelines(false), worlds: Arc::new(wn), oracles: vec![] }, 2));
   }
   // combining operators over cold sources whose subscriber re-subscribes the same Observable value from a callback
   {
